@@ -70,8 +70,9 @@ def readOnlyKinds : List String := ["read", "constarg", "unevaluated"]
 theorem globals_read_only :
     ∀ g ∈ Gen.globals, g.2.2.2.1 = true ∨ ∀ r ∈ g.2.2.2.2, r.2 ∈ readOnlyKinds := by decide
 
-/-- (ii-b) there is no function-local static variable -/
-theorem no_static_locals : ∀ g ∈ Gen.globals, g.2.2.1 = "file-scope" := by decide
+/-- (ii-b) there is no function-local static variable, except objects declared `const`
+    (lookup tables) -/
+theorem no_static_locals : ∀ g ∈ Gen.globals, g.2.2.1 = "file-scope" ∨ g.2.2.2.1 = true := by decide
 
 /-- (ii-c) every writable data symbol of every object is one of the variables accounted for above -/
 theorem data_symbols_accounted :
